@@ -906,6 +906,42 @@ func init() {
 		"fpeq": func(e *SpecEnv, n ECall) Val {
 			return boolVal(sx("fp.eq", e.eval(n.Args[0]).C[0], e.eval(n.Args[1]).C[0]))
 		},
+		// goconv(v, "T"): Go's numeric conversion T(v) from the static type of v (T may be a type
+		// parameter of the contracted generic function): the same term the engine gives ssa.Convert
+		"goconv": func(e *SpecEnv, n ECall) Val {
+			if len(n.Args) != 2 {
+				e.fail("goconv takes a value and a type name")
+			}
+			v := e.eval(n.Args[0])
+			s, ok := n.Args[1].(EStr)
+			if !ok {
+				e.fail("goconv: second argument must be a type name string")
+			}
+			var t types.Type
+			if e.fr != nil && e.fr.fn != nil {
+				// loop invariants and hints are evaluated outside withTypeArgs: resolve the type
+				// parameters of the function at hand directly
+				if o := e.fr.fn.Origin(); o != nil && o.TypeParams() != nil {
+					targs := e.fr.fn.TypeArgs()
+					for k := 0; k < o.TypeParams().Len() && k < len(targs); k++ {
+						if o.TypeParams().At(k).Obj().Name() == strings.TrimSpace(s.V) {
+							t = targs[k]
+						}
+					}
+				}
+			}
+			if t == nil {
+				t = e.x.typeByName(s.V)
+			}
+			if t == nil {
+				e.fail("unknown type %q", s.V)
+			}
+			r, ok := e.x.convertTerm(v, t)
+			if !ok {
+				e.fail("goconv: no numeric conversion from %v to %s", v.T, s.V)
+			}
+			return r
+		},
 		"unbox": func(e *SpecEnv, n ECall) Val {
 			v := e.eval(n.Args[0])
 			s := n.Args[1].(EStr)
